@@ -269,8 +269,12 @@ def main(argv):
         json.dump(ev, f, indent=1, default=str)
 
     # ---------------------------------------------------------------- verdict
+    n_refuted = sum(1 for g in S.goals if g.expect == 'unsat' and (g.result or {}).get('verdict') == 'sat')
     print("%s %s: %d/%d obligations discharged, %d canaries, bounded evaluations=%s, %.1fs" % (
         prop, tier, n_discharged, n_proof, n_canary, (bounded or {}).get('evaluations', '-'), wall))
+    if n_refuted or undecided:
+        print("deductive stage: %d obligations refuted by the solver, %d undecided; bounded stage: %d failing inputs" % (
+            n_refuted, len(undecided), len((bounded or {}).get('failures', []))))
     if checker_errors:
         for c in checker_errors:
             print("CHECKER-ERROR property=%s %s" % (prop, c))
